@@ -185,6 +185,10 @@ var wireSpecs = []wireSpec{
 		{"values", []string{"store var<input.Instance>.Values <- astconv.ValuesConverter.Convert(p0.valuesConverter,"}, "the durations are not stored in the instance"},
 		{"chord", []string{"store var<input.Instance>.Chord <- astconv.ChordConverter.Convert(p0.chordConverter,"}, "the converted chord is not stored in the instance"},
 	}},
+	{"input/ast", "NewToken", []wireFact{
+		{"type", []string{"store var<input/ast.Token>.VType <- github.com/berquerant/ybase.Token.Type(p0)"}, "a tree token loses the lexer's token type: consumers that dispatch on the type (the accidental canonicaliser) see type 0"},
+		{"value", []string{"store var<input/ast.Token>.VValue <- github.com/berquerant/ybase.Token.Value(p0)"}, "a tree token does not carry the lexer token's text"},
+	}},
 	// ---- scale degree search
 	{"op", "ScaleNote.GetDegree", []wireFact{
 		{"distance", []string{"<- -op.ScaleNote.Semitone(p0)+op.ScaleNote.Semitone(p1)"}, "the pitch distance is not (argument) - (receiver)"},
@@ -283,6 +287,37 @@ func ruleWire(c *Ctx) {
 			c.check(found, key, c.pos(fn.Pos()), fname(fn), "wired as stated", fmt.Sprintf("%s: %s (expected data-flow fact containing %q not found)", fname(fn), nf.why, strings.Join(nf.has, " ... ")))
 		}
 	}
+	// number readers: a duration / interval text is refused only when the number parser or the validating constructor
+	// refuses it (no extra test on the text, which would treat spellings of the same number differently)
+	for _, spec := range []struct{ pkg, fn string }{{"astconv", "ValuesConverterImpl.convertValue"}, {"astconv", "DegreeChordConverter.convertDegree"}} {
+		fn := c.fn(spec.pkg, spec.fn)
+		if fn == nil {
+			c.missing(spec.pkg + "." + spec.fn)
+			continue
+		}
+		c.site(1)
+		isCalleeError := func(v ssa.Value) bool {
+			switch x := v.(type) {
+			case *ssa.Extract:
+				call, ok := x.Tuple.(*ssa.Call)
+				return ok && isErrorType(x.Type()) && c.isRepoCallOrInvoke(call)
+			case *ssa.Call:
+				return isErrorType(x.Type()) && c.isRepoCallOrInvoke(x) && !strings.HasPrefix(calleeName(&x.Call), "errorx.")
+			}
+			return false
+		}
+		problem := ""
+		for _, r := range returnsOf(fn) {
+			e := retVal(r, len(r.Results)-1)
+			if isNilConst(e) {
+				continue
+			}
+			if !dataDependsOn(e, isCalleeError) {
+				problem = "an error is returned that does not come from the number parser or a validating constructor (at " + c.pos(r.Pos()) + ")"
+			}
+		}
+		c.check(problem == "", spec.pkg+"."+spec.fn+"|refusals", c.pos(fn.Pos()), fname(fn), "every refusal comes from a callee's verdict", fname(fn)+": "+problem+": the text is refused by an extra test of its own, so two spellings of the same number (leading zeros) are no longer treated alike")
+	}
 	// the degree search: a degree is only ever returned as found by the search, never made up on a shortcut
 	if fn := c.fn("op", "ScaleNote.GetDegree"); fn != nil {
 		c.site(1)
@@ -320,6 +355,13 @@ func ruleWire(c *Ctx) {
 			facts := c.facts(f)
 			c.site(1)
 			c.check(hasFact(facts, "call desc.Attribute.Describe(", "pflag.FlagSet.GetString(", "\"target\"", "cmd.getRootNote(p0)#0,github.com/spf13/pflag.FlagSet.GetBool(github.com/spf13/cobra.Command.Flags(p0),\"precedeSharp\")#0)"), a+"|describe", c.pos(f.Pos()), a, "-t, -r and -s reach Attribute.Describe", a+": the attribute name (-t), the root (-r) and the sharp preference (-s) are not passed to Describe in that order")
+		case "cmd.writeCmdConv.RunE":
+			// what `write conv` prints is what `write` would play: every setting a flag can override is copied back into the printed first instance
+			facts := c.facts(f)
+			for _, fld := range []string{"BPM", "Velocity", "Meter", "Key"} {
+				c.site(1)
+				c.check(hasFact(facts, "store ", "[0]."+fld+" <- cmd.newWriteCmdArgsFromInputInstances(", ".instances[0]."+fld), a+"|copy-back|"+fld, c.pos(f.Pos()), a, "the resolved "+fld+" of instance 0 is printed", a+": the "+fld+" resolved from the flags is not copied into the printed first instance: `write conv --flag ... | write` plays something else than `write --flag ...`")
+			}
 		case "cmd.infoCmdChordDescribe.RunE":
 			facts := c.facts(f)
 			c.site(1)
@@ -498,6 +540,17 @@ func dataDependsOn(v ssa.Value, pred func(ssa.Value) bool) bool {
 				if st, ok := r.(*ssa.Store); ok && st.Addr == ssa.Value(y) && walk(st.Val, depth+1) {
 					return true
 				}
+				// elements / fields written through an address derived from the local (variadic argument lists, struct literals)
+				if av, ok := r.(ssa.Value); ok {
+					switch r.(type) {
+					case *ssa.IndexAddr, *ssa.FieldAddr:
+						for _, rr := range *av.Referrers() {
+							if st, ok := rr.(*ssa.Store); ok && st.Addr == av && walk(st.Val, depth+1) {
+								return true
+							}
+						}
+					}
+				}
 			}
 			return false
 		case *ssa.FreeVar:
@@ -543,4 +596,14 @@ func dataDependsOn(v ssa.Value, pred func(ssa.Value) bool) bool {
 		return false
 	}
 	return walk(v, 0)
+}
+
+
+// isRepoCallOrInvoke: the call goes to a function or interface method of the repository.
+func (c *Ctx) isRepoCallOrInvoke(call *ssa.Call) bool {
+	if call.Call.IsInvoke() {
+		return c.isRepoPkgPath(pkgPathOfType(call.Call.Value.Type()))
+	}
+	callee := staticCallee(&call.Call)
+	return callee != nil && c.isRepoFunc(callee)
 }
